@@ -5,7 +5,7 @@ import HyperModel.Proofs.Bond
 Model: `HyperModel.Bond` (`Model/Bond.lean`) — the bonder db, the *repaired* `Bonder.Bond`
 (`/verif/fixes/C38-bond-idempotent.patch`), `Bonder.Unbond`, and the fdsmr node's
 `BuildChunk` / `Accept` over the pending-expiry set. Histories are arbitrary lists of
-`setmax` / `build` / `accept` operations with arbitrary (also repeated) transactions.
+`setmax` / `build` / `buildFail` (inner DSMR build fails) / `accept` operations with arbitrary (also repeated) transactions.
 
 The property's right-hand side is the specification `Spec` of `Model/Bond.lean`: the set of
 bonded transactions that are neither accepted nor expired, each with the fee of its bonding.
@@ -78,6 +78,11 @@ theorem pending_never_rises_above_max (ops : List Op) (op : Op) (a : Nat) :
     rcases build_pending (run Node.init ops) rate txs a with h | h
     · exact Or.inl (Nat.le_of_eq h)
     · exact Or.inr h
+  | buildFail rate txs =>
+    simp only [step, build_maxBal]
+    rcases build_pending (run Node.init ops) rate txs a with h | h
+    · exact Or.inl (Nat.le_of_eq h)
+    · exact Or.inr h
   | accept ts txs => exact Or.inl (accept_pending_le hi ts txs a)
 
 /-- histories in which `SetMaxBalance` never sets a sponsor's max below its current pending bond -/
@@ -96,6 +101,7 @@ theorem pending_le_max_from {n : Node} (hi : NodeInv n) (hle : ∀ a, n.db.pendi
       cases op with
       | setmax s m => exact ⟨hi.db, hi.tracked⟩
       | build rate txs => exact (build_refines hi (s := ⟨n.maxBal, n.db.recs⟩) ⟨rfl, rfl⟩ rate txs).1
+      | buildFail rate txs => exact (build_refines hi (s := ⟨n.maxBal, n.db.recs⟩) ⟨rfl, rfl⟩ rate txs).1
       | accept ts txs => exact (accept_refines hi (s := ⟨n.maxBal, n.db.recs⟩) ⟨rfl, rfl⟩ ts txs).1
     cases op with
     | setmax s m =>
@@ -106,6 +112,14 @@ theorem pending_le_max_from {n : Node} (hi : NodeInv n) (hle : ∀ a, n.db.pendi
       · subst hb; simpa [step, setMax, setAt] using hs.1
       · simpa [step, setMax, setAt, hb] using hle b
     | build rate txs =>
+      simp only [SafeHistory] at hs
+      refine ih hi' ?_ hs
+      intro b
+      simp only [step, build_maxBal]
+      rcases build_pending n rate txs b with h | h
+      · rw [h]; exact hle b
+      · exact h
+    | buildFail rate txs =>
       simp only [SafeHistory] at hs
       refine ih hi' ?_ hs
       intro b
@@ -132,6 +146,19 @@ theorem bond_unbond_preserve_db_invariant {db : Db} (h : DbInv db) :
     (∀ m tx rate, DbInv (bond db m tx rate).1) ∧ (∀ tx, DbInv (unbond db tx)) :=
   ⟨fun m tx rate => bond_inv h m tx rate, fun tx => unbond_inv h tx⟩
 
+/-- **Failed inner builds do not leak bonds**: a `BuildChunk` whose inner `DSMR.BuildChunk`
+fails leaves every bonded tx tracked in the expiry heap, so a block past the expiries releases
+everything (instance of `returns_to_zero_after_expiry` for histories ending in a failed build). -/
+theorem failed_build_released_at_expiry (ops : List Op) (rate : Nat) (txs : List Tx) (ts : Int)
+    (h : ∀ t ∈ (run Node.init (ops ++ [Op.buildFail rate txs])).heap, t.expiry < ts) (a : Nat) :
+    (run Node.init (ops ++ [Op.buildFail rate txs] ++ [Op.accept ts []])).db.pending a = 0 :=
+  returns_to_zero_after_expiry (ops ++ [Op.buildFail rate txs]) ts [] h a
+
+/-- every record of a reachable state is tracked in the heap — also right after a failed build -/
+theorem bonded_is_tracked (ops : List Op) (p : Tx × Nat) (hp : p ∈ (run Node.init ops).db.recs) :
+    p.1 ∈ (run Node.init ops).heap :=
+  (node_refines_spec ops).1.tracked p hp
+
 /-! ### The code before the repair violates the property -/
 
 private def t0 : Tx := { nonce := 0, sponsor := 0, size := 11, expiry := 100 }
@@ -152,6 +179,11 @@ theorem c38_counterexample_unrepaired :
 example : (run Node.init witness).db.pending 0 = 0 := by decide
 
 /-! ### Non-vacuity -/
+
+/-- a failed build bonds and tracks; the bond is released at expiry -/
+example : (run Node.init [Op.setmax 0 1000, Op.buildFail 1 [t0]]).db.pending 0 = 11
+    ∧ (run Node.init [Op.setmax 0 1000, Op.buildFail 1 [t0]]).heap = [t0]
+    ∧ (run Node.init [Op.setmax 0 1000, Op.buildFail 1 [t0], Op.accept 200 []]).db.pending 0 = 0 := by decide
 
 /-- `SafeHistory` is satisfiable by a history that bonds, re-bonds, accepts and expires. -/
 example : SafeHistory Node.init witness := by
